@@ -6,7 +6,7 @@
 (* PAIRCAP) - 1 (PAIRCAP = 255 in the code: `.take(u8::MAX)`), so every    *)
 (* selected offset is <= PAIRCAP - 1.                                      *)
 (***************************************************************************)
-EXTENDS ShiftOr
+EXTENDS ShiftOr, TLC
 
 CONSTANT PAIRCAP
 
@@ -21,7 +21,7 @@ PR_ScanStep(n, rank, st, i) ==
   ELSE st
 RECURSIVE PR_Scan(_, _, _, _)
 PR_Scan(n, rank, st, i) ==
-  IF i >= Min2(Len(n), PAIRCAP) THEN st ELSE PR_Scan(n, rank, PR_ScanStep(n, rank, st, i), i + 1)
+  IF i >= Min2(Len(n), PAIRCAP) THEN st ELSE PR_Scan(n, rank, TLCEval(PR_ScanStep(n, rank, st, i)), i + 1)   \* TLCEval: force the step (TLC passes arguments lazily)
 PR_WithRanker(n, rank) ==
   IF Len(n) <= 1 THEN PR_None
   ELSE LET s == PR_Scan(n, rank, PR_Seed(n, rank), 2) IN [none |-> FALSE, i1 |-> s.i1, i2 |-> s.i2]
